@@ -122,6 +122,7 @@ func panicAllowed(p *Prepared) (bool, string) {
 func checkShape(c *Case, v *Verdict) {
 	op := c.Op
 	p := prepare(op)
+	defer p.G.Release()
 	out := execOp(p)
 	v.Pts, v.Calls = out.Pts, 1
 	v.noteDev(out.Dev, op.Rd)
